@@ -194,22 +194,23 @@ fn resolve_renamed(
 ) -> Option<String> {
     let name_map = serde_renamed.get(id)?;
 
-    // Find in imports. `import_types` is a hash set shared by all files of the crate: when the
-    // name is imported from several crates, try them in crate-name order so that the choice
-    // does not depend on the per-process hash seed.
-    // A glob import (`use other::*;`) brings the name into scope as well; an explicit
-    // import takes precedence over it, as it does in Rust.
-    let mut candidates: Vec<&ImportedType> = import_types
-        .iter()
-        .filter(|i| i.type_name == id || i.type_name == "*")
-        .collect();
-    candidates.sort_by(|a, b| {
-        (a.type_name == "*", &a.base_crate).cmp(&(b.type_name == "*", &b.base_crate))
-    });
-    candidates
-        .into_iter()
-        .find_map(|import_ref| name_map.get(&import_ref.base_crate))
-        // Fallback to looking up in our current namespace.
+    // `import_types` is a hash set shared by all files of the crate: when the name is imported
+    // from several crates, try them in crate-name order so that the choice does not depend on
+    // the per-process hash seed.
+    let in_crate_order = |glob: bool| {
+        let mut candidates: Vec<&ImportedType> = import_types
+            .iter()
+            .filter(|i| if glob { i.type_name == "*" } else { i.type_name == id })
+            .collect();
+        candidates.sort_by(|a, b| a.base_crate.cmp(&b.base_crate));
+        candidates
+            .into_iter()
+            .find_map(|import_ref| name_map.get(&import_ref.base_crate))
+    };
+    // As in Rust: an explicit import names the type; otherwise a definition in our own crate
+    // shadows whatever a glob import (`use other::*;`) brings into scope.
+    in_crate_order(false)
         .or_else(|| name_map.get(crate_name))
+        .or_else(|| in_crate_order(true))
         .map(ToOwned::to_owned)
 }
